@@ -4,17 +4,17 @@ set does not depend on the number of workers; wall caps only truncate (and say s
 CHECKS = {
     # prop: engine, runs per tier, hash seeds per tier, wall cap (s) per tier, determinism re-runs
     "C28": dict(engine="cellsim",
-                quick=dict(runs=1600, hashseeds=[0, 1], wall=150, verify=16),
-                thorough=dict(runs=40000, hashseeds=[0, 1, 2, 3], wall=1500, verify=64)),
+                quick=dict(runs=4000, hashseeds=[0, 1], wall=150, verify=16),
+                thorough=dict(runs=150000, hashseeds=[0, 1, 2, 3], wall=1500, verify=64)),
     "C33": dict(engine="mcsim",
-                quick=dict(runs=1200, hashseeds=[0, 1], wall=150, verify=16),
+                quick=dict(runs=2000, hashseeds=[0, 1], wall=150, verify=16),
                 thorough=dict(runs=30000, hashseeds=[0, 1, 2, 3], wall=1500, verify=64)),
     "C34": dict(engine="mcsim",
-                quick=dict(runs=800, hashseeds=[0, 1], wall=150, verify=16),
-                thorough=dict(runs=20000, hashseeds=[0, 1, 2, 3], wall=1500, verify=64)),
+                quick=dict(runs=1500, hashseeds=[0, 1], wall=150, verify=16),
+                thorough=dict(runs=40000, hashseeds=[0, 1, 2, 3], wall=1500, verify=64)),
     "C35": dict(engine="mcsim",
                 quick=dict(runs=1000, hashseeds=[0, 1], wall=150, verify=16, jobs=8),
-                thorough=dict(runs=25000, hashseeds=[0, 1, 2, 3], wall=1500, verify=64)),
+                thorough=dict(runs=50000, hashseeds=[0, 1, 2, 3], wall=1500, verify=64)),
     "C14": dict(engine="calcsim",
                 quick=dict(runs=240, hashseeds=[0, 1], wall=170, verify=8),
                 thorough=dict(runs=3000, hashseeds=[0, 1, 2, 3], wall=2400, verify=32)),
